@@ -344,6 +344,9 @@ structure SpecSt (R : Type) where
   sys : System.St R
   infos : List FlowReject.RuleInfo := []
   H : List FlowReject.Arrival := []
+  /-- number of admitted arrivals before `load flow`: an independent window starts empty at load time, a reused view of the
+      node's own statistic does not -/
+  hLoad : Nat := 0
   flowLoaded : Bool := false
   iso : Iso.SpecSt := {}
   hotRules : List HotConc.Rule := []
@@ -366,6 +369,16 @@ def hotSpecBlocked (rules : List HotConc.Rule) (live : List HotConc.Live) (res :
     let v := r.sel res args atts
     v ≠ HotConc.Val.nil && !decide ((hotInflight r live v : Int) + 1 ≤ r.thrOf v)
 
+/-- the flow reference, rule by rule in load order: `FlowReject.refCheck` on the arrivals the rule's statistic has seen -/
+def specFlowCheck (infos : List FlowReject.RuleInfo) (H : List FlowReject.Arrival) (hLoad : Nat) (res now b : Nat) : Option Nat :=
+  match infos with
+  | [] => none
+  | c :: r =>
+    let Hc := match c.geom with | .own _ _ => H.drop hLoad | _ => H
+    match FlowReject.refCheck FlowReject.RuleInfo.feed [c] Hc res now b with
+    | some i => some i
+    | none => specFlowCheck r H hLoad res now b
+
 section spec
 variable [LT R] [LE R] [∀ a b : R, Decidable (a < b)] [∀ a b : R, Decidable (a ≤ b)]
 
@@ -376,7 +389,7 @@ def specEntry (A : System.Arith R) (s : SpecSt R) (q : Req) : SpecSt R × Option
   -- verdicts of the references, in the built-in order; the breaker machine is only consulted when reached
   let d0 : Option Blk :=
     if System.blockedBy A true s.sys q.inbound then some .sys else
-    match FlowReject.refCheck FlowReject.RuleInfo.feed s.infos s.H q.res s.now q.batch with
+    match specFlowCheck s.infos s.H s.hLoad q.res s.now q.batch with
     | some i => some (.flow i)
     | none =>
       match Iso.specCheck (Iso.rulesOf s.iso.rules rn) (Iso.inflight s.iso.live rn) (UInt32.ofNat q.batch) with
@@ -432,7 +445,7 @@ def specStep (A : System.Arith R) (s : SpecSt R) : Op R → SpecSt R × Out
   | .loadSys rs => if !s.started then (s, .bad) else ({ s with sys := (System.step A true s.sys (.load rs)).1 }, .none)
   | .loadFlow rs =>
     if !s.started || s.flowLoaded then (s, .bad)
-    else ({ specGhosts s rs with infos := FlowReject.compile rs, flowLoaded := true }, .none)
+    else ({ specGhosts s rs with infos := FlowReject.compile rs, hLoad := s.H.length, flowLoaded := true }, .none)
   | .loadIso rs => if !s.started then (s, .bad) else ({ s with iso := { s.iso with rules := Iso.loadRules rs } }, .none)
   | .loadHot rs => if !s.started then (s, .bad) else ({ s with hotRules := rs.filter HotConc.Rule.valid }, .none)
   | .loadCb rs =>
